@@ -140,7 +140,11 @@ func c13(c *ctx) {
 				continue
 			}
 			if len(rr.Bad) > 0 {
-				c.run.Violate("bounds:"+key, "in-parser bounds assertion failed: "+rr.Bad[0], w())
+				if strings.HasPrefix(rr.Bad[0], "after Error()") {
+					c.run.Violate("text:"+key, "producing the error message changed the parser's own copy of the text: "+rr.Bad[0], w())
+				} else {
+					c.run.Violate("bounds:"+key, "in-parser bounds assertion failed: "+rr.Bad[0], w())
+				}
 				continue
 			}
 			if rr.NRunes != len(it.In) {
